@@ -65,7 +65,8 @@ def elementwise_instances(L, cloneable, len1=2):
     """every element-wise operation instance on v0 (len L) with helper vectors v1 (same type, len1)
     and v2 (other type)"""
     ops = []
-    srcs = ["w0", "r0", "w1", "r1"]
+    # s0 / y0: raw pointers without type (and without size) through push_unchecked / insert_unchecked (own type only)
+    srcs = ["w0", "r0", "w1", "r1", "s0", "y0"]
     if cloneable: srcs += ["l1.%d.%d" % (i, d) for i in range(len1 + 1) for d in (1, 2, 3)] + ["l2.0.1"]
     sinks = ["drop", "dc0", "dc1", "push1", "push2", "swap0", "swap1"] + ["ins1.%d" % j for j in range(len1 + 2)]
     if cloneable: sinks += ["lazy1.0", "lazy1.1", "lazy1.2", "lazy2.1"]
@@ -133,9 +134,9 @@ def rand_history(rng, name, layout, kinds, nops, maxlen, nvecs=3, max_created=No
         grow = ln < maxlen and created < budget
         if r < 0.30 and grow:
             # push / insert from a fresh value
-            src = rng.choice(["w", "r", "t"])
+            src = rng.choice(["w", "r", "t", "w", "r", "t", "s", "y"])
             tyv = d["ty"] if rng.random() < 0.93 else 1 - d["ty"]
-            if src == "t": tyv = d["ty"]
+            if src in "tsy": tyv = d["ty"]          # typed view / unchecked raw pointers: the vector's own type only
             if rng.random() < 0.5:
                 c.add("tpush %d" % v if src == "t" else "push %d %s%d" % (v, src, tyv)); ok = room and tyv == d["ty"]
             else:
